@@ -288,6 +288,6 @@ pub fn check(c: &Case, obs: &mut Obs) -> Result<(), String> {
 
 fn run(ctx: &mut Ctx) {
     let cases = ctx.share(ctx.tier.pick(250_000, 3_000_000));
-    let p = ctx.tier.pick(TreeParams::quick(), TreeParams::thorough()).with_big(2);
+    let p = ctx.tier.pick(TreeParams::quick(), TreeParams::thorough()).with_big(3);
     run_strategy(ctx, "C06", "editors", cases, arb_case(p), check);
 }
